@@ -110,8 +110,8 @@ def run(x, y):
     d.update({"z": x})
     if "k0" in d:
         del d["k0"]
-    keys = list(d.keys())
-    vals = [d[k] for k in d]
+    keys = sorted(d.keys())
+    vals = sorted(d[k] for k in d)
     e = dict((k, v) for k, v in d.items() if v != 2)
     p = d.pop("zz", "none")
     c = d.copy(); c["new"] = 1
